@@ -37,6 +37,7 @@ FIXED=[
  ("C19","Parseable with a value receiver","grammar.go parseType","Build panicked (reflect: Elem of invalid type) for a field or root type that implements Parseable with a value receiver (found by the static-type cases added to C19 after an independent reviewer's remark)"),
  ("C19","modifier, capture or negation with no operand","grammar.go parseModifier/parseCapture/parseNegation","Build panicked (value \"<nil>\") on tags `@`, `?`, `!`, `~`, `\"a\" @`, `! !`, parser:\"@\""),
  ("C06","capturing an empty match into a lexer.Token","nodes.go setField","`Tok lexer.Token \"@(\\\"a\\\"?)\"` on input without the optional token: index out of range [0] in setField (witness grammar W4)"),
+ ("C07","emits empty tokens forever","cmd/participle/codegen.go.tmpl Next","a generated lexer whose selected rule matched the empty string at an offset > 0 returned the same empty token on every Next call (never returned, for a lower-case rule), where the runtime lexer reports `rule did not match any input`: Root:{Open=`\\(` push(In)} In:{Close=`\\)` pop; Body=`(?:[^()]*)+`} on \"(()\" gave 6 tokens from 3 input bytes (found by the generated-lexer part added to C07 in round seven; an independent reviewer had noted the behaviour in passing)"),
  ("C05","never matches multi-byte literals","cmd/participle/gen_lexer_cmd.go generateRegexMatch","generated matcher used the rune count of a literal as byte length: rule `é` never matched, `(世)` did not compile"),
  ("C05","rejects the last character of the input","cmd/participle/gen_lexer_cmd.go generateRegexMatch","generated matcher for `.` / `(?s:.)` failed on the last character of the input and indexed past its end"),
  ("C05","empty-match and no-match operators are inverted","cmd/participle/gen_lexer_cmd.go generateRegexMatch","`[b](?:x|xs)(0)(b)`-style patterns with an empty alternative never matched in the generated lexer"),
